@@ -1,7 +1,7 @@
 // ---- stand-in for resolvo::solver::clause::Literal (NonZeroU32 bit encoding).  Its contracts are NOT trusted:
 // each is proved on the real code by the loop-free, full-domain Kani harness set `lit` (kani/verif_kani.rs:
 // lit_new_roundtrip, lit_positive_negative, lit_eq_iff_same_variable_and_polarity); `eval` is the real function
-// (bounded only in the DecisionMap index).  ./check runs those harnesses whenever a unit uses this stand-in.
+// verified by Verus on top of variable()/negate().  ./check runs those harnesses whenever a unit uses this stand-in.
 #[verifier::external_body]
 #[derive(Copy, Clone)]
 pub struct Literal { _p: u32 }
